@@ -73,4 +73,16 @@ func init() {
 		explanation: "Decides the structural clauses that keep the index equal to the committed log: nothing stored in the indexing bulk aliases the pooled transaction buffer; the tombstone of a previous mapped key is written with a writable metadata copy and its error checked; index entries carry the id of the tx they were read from, are built from per-transaction state only, and waiters are released by the tree's own logical time; non-indexable entries and foreign prefixes are skipped; an index ahead of the log is rejected; on the read side deleted/expired filters are applied before offsets and results; plus the TS-file/flush ordering shared with C03. It does NOT decide B-tree content (C10) nor key-mapper functions.",
 		assumptions: []string{"entry mappers return freshly allocated keys"},
 	})
+	register("C12", &propDef{
+		patterns: []string{"./embedded/sql"},
+		run:      c12,
+		explanation: "Decides the structural clauses behind SQL integrity constraints: in every caller of the row sink doUpsert, each update of the row image is followed on all paths by checkConstraints before the sink; every computed assignment consults the column's NOT NULL flag; update-style assignments cannot touch primary key columns (UPDATE and ON CONFLICT agree); the PK probe and unique-index probes go through the transaction's recording read layer before the write; a failed statement cancels the transaction; a unique index is created only after an emptiness probe. It does NOT decide constraint satisfaction over arbitrary histories and interleavings (that rests on C05).",
+		assumptions: []string{"type/length validation is performed by EncodeValue inside the sink"},
+	})
+	register("C13", &propDef{
+		patterns: []string{"./embedded/sql", "./embedded/document", "./pkg/server/sessions/...", "./pkg/database"},
+		run:      c13,
+		explanation: "Decides the structural clauses behind SQL transaction atomicity: the store transaction of a SQL transaction is committed at exactly one site (SQLTx.Commit), closed transactions are refused, cancel paths reach the store's Cancel (ROLLBACK statement, session rollback, every function that drops sessions), all SQL writes go through the SQLTx wrappers of one store transaction, and ROLLBACK TO SAVEPOINT must reach the store write-set (it does not today: known finding). It does NOT decide isolation between concurrent sessions (C05) nor the pgsql front-end.",
+		assumptions: []string{},
+	})
 }
